@@ -12,7 +12,11 @@ from props import _mc as M
 ID = "C16"
 SECTIONS = ["mc"]
 LEAN_MODULES = ["QExPy.Props.C16"]
-THEOREMS = ["QExPy.C16_init_generated"]
+THEOREMS = ["QExPy.C16_argmax", "QExPy.C16_walk_spec", "QExPy.C16_walk_edges",
+            "QExPy.C16_mode_result", "QExPy.C16_error_nonneg", "QExPy.C16_init_generated",
+            "QExPy.C16_cache_coherent_step", "QExPy.C16_cache_coherent", "QExPy.C16_read_spec",
+            "QExPy.C16_sim_changes_only", "QExPy.C16_new_sim_is_new", "QExPy.C16_mean_std_range",
+            "QExPy.C16_custom"]
 RULE = ("(a) unit level: find_mode_and_uncertainty on synthetic count lists (length 100 and other "
         "lengths; mass at the first/last bins, both ends, spikes, ties, zeros) x confidences "
         "{0.01,0.5,0.68,0.9,0.95,0.999,1.0} and random ones, vs the Lean walk and the decidable "
